@@ -251,6 +251,14 @@ def r1_scan(program, rep):
                     plain(T._bind_term(ors[0])) in (
                         ("binop", "BitOr", plain(occ[0]), plain(bits[0])),
                         ("binop", "BitOr", plain(bits[0]), plain(occ[0])))
+    closures = [n_ for n_ in ast.walk(fn) if n_ is not fn and
+                isinstance(n_, (ast.FunctionDef, ast.Lambda))]
+    if closures and not (okc and okm):
+        # the mask is computed by a local function closing over the length:
+        # the comparison of the two lengths below is not reliable then
+        raise AnalysisError("_assign_field: the field's bits are computed "
+                            "by a local helper function closing over "
+                            "variables of _assign_field; not followed here")
     rep.check(okc, "C08-R1", inst, "a position is taken only if none of the "
               "field's bits ((1 << length) - 1) << position is already "
               "assigned", construct="free position test", node=lp)
@@ -1149,8 +1157,10 @@ def r6_tags(program, rep):
     it_t = T.term(lp.iter, head)
     it = plain(it_t)
     PID = ("elem", it_t)
-    staged = T.filtered(it_t) if it[0] in ("listcomp", "genexp", "call") \
-        and not (it[0] == "call" and it[1][0] == "attr") else None
+    staged = T.filtered(it_t) if (
+        it[0] in ("listcomp", "genexp", "call") and
+        not (it[0] == "call" and it[1][0] == "attr")) or (
+        it_t[0] == "new" and it_t[2][0] in ("list", "listcomp")) else None
     if staged and len(staged) == 1 and not staged[0][2]:
         # the parents were looked up into a list first: the loop runs over
         # get_field(<each requirement>), one per requirement
@@ -1159,6 +1169,9 @@ def r6_tags(program, rep):
     no_skip = not any(isinstance(n, (ast.Break, ast.Continue, ast.Return))
                       for n in ast.walk(lp))
     parent = plain(recv[1])
+    if staged and len(staged) == 1 and recv[1] == ("elem", it_t):
+        # an element of the list filled by a loop: what the loop appends
+        parent = plain(staged[0][1])
     TAGS = T.term(ast.Name(id=ps[4], ctx=ast.Load()), un)
     ok = no_skip and cfg.must_pass(body, lambda n: n is un,
                                    targets=[head, cfg.exit]) and \
